@@ -47,6 +47,7 @@ type readerInfo struct {
 	Consumed bool   `json:"consumed"` // the parser stopped at end of input
 	OPanic   bool   `json:"opanic"`   // the oracle's own parse panicked or timed out (errs/nodes/consumed unknown)
 	Len      int    `json:"len"`
+	Blank    bool   `json:"blank"`             // empty or white space only
 	ODetail  string `json:"odetail,omitempty"` // first syntax error / why the oracle failed (for the reader of a replay file)
 	title    string
 }
@@ -202,7 +203,7 @@ func oracleMixed(data []byte) (mixed int, ok bool) {
 // oracleParse parses data on its own with lexer and parser built from the same
 // generated grammar, default console listeners removed, a counting listener on both.
 func oracleParse(data []byte) readerInfo {
-	info := readerInfo{Len: len(data)}
+	info := readerInfo{Len: len(data), Blank: len(bytes.TrimSpace(data)) == 0}
 	if len(data) == 0 {
 		// `dialogue : file_hashtag* node+` does not derive the empty string and the property
 		// names empty input explicitly; ANTLR is not asked (IndentAwareLexer hands out an EOF
